@@ -396,12 +396,21 @@ def rule_queue_order(mod, rep):
         return
     rep.scope([f.name])
     n = 0
-    for s in f.insts():
-        if s.op != "store" or not addr_is_elem_of(f, s, "queue"):
+    # enqueue events: a store into queue[] here, or a call of a helper (Enqueue) whose summary stores one of its scalar arguments into queue[]
+    from ..summ import store_summary
+    events = [(s, strip_casts(f, s.ops[0])) for s in f.insts() if s.op == "store" and addr_is_elem_of(f, s, "queue")]
+    for c in f.calls():
+        g = mod.funcs.get(c.callee or "")
+        if g is None:
             continue
+        for (k, sfx, roots, unknown) in (store_summary(mod, g) or []):
+            if any(isinstance(st, tuple) and len(st) >= 3 and st[0] == "f" and st[2] == "queue" for st in sfx):
+                for (k2, sfx2) in roots:
+                    if not sfx2 and k2 < len(c.ops):
+                        events.append((c, strip_casts(f, c.ops[k2])))
+    for (s, v) in events:
         n += 1
         ok = False
-        v = strip_casts(f, s.ops[0])
         if v[0] == "v" and f.inst[v[1]].op == "load":
             L = f.inst[v[1]]
             a0 = strip_casts(f, L.ops[0])
